@@ -15,6 +15,9 @@ mod sharding;
 
 pub use sharding::{InvalidShardAwarePortRange, Shard, ShardAwarePortRange, ShardCount, Sharder};
 pub(crate) use sharding::{ShardInfo, ShardingError};
+#[cfg(scylla_verif)]
+#[allow(missing_docs)]
+pub use sharding::verif_hooks as verif_sharding;
 
 #[derive(PartialEq, Eq, PartialOrd, Ord, Clone, Copy, Debug)]
 
